@@ -1408,7 +1408,8 @@ def _trace_sort_key(w):
             return int(s)
         except ValueError:
             return s
-    return [tryint(c) for c in re.split('([0-9]+)', w)]
+    # (the name itself breaks ties such as "x1" / "x01")
+    return ([tryint(c) for c in re.split('([0-9]+)', w)], w)
 
 
 class TraceStorage(Mapping):
@@ -1553,7 +1554,7 @@ class SimulationTrace(object):
         # file_timestamp = time.strftime("%a, %d %b %Y %H:%M:%S (UTC/GMT)", time.gmtime())
         # print >>file, " ".join(["$date", file_timestamp, "$end"])
         self.internal_names = _VerilogSanitizer('_vcd_tmp_')
-        for wire in self.wires_to_track:
+        for wire in sorted(self.wires_to_track, key=lambda w: w.name):  # not in set order
             self.internal_names.make_valid_string(wire.name)
 
         def _varname(wireName):
